@@ -199,6 +199,14 @@ impl ApLang<Parsed> {
     }
 }
 
+#[cfg(feature = "verif")]
+impl ApLang<Parsed> {
+    /// H3: read access to the syntax tree for the verification harness
+    pub fn verif_ast(&self) -> &Ast {
+        unsafe { self.ast.as_ref().unwrap_unchecked() }
+    }
+}
+
 impl ApLang<ExecutedWithDebug> {
     pub fn debug_output<Writer: Write>(&self, buf: &mut Writer) -> fmt::Result {
         let values = unsafe { self.values.as_ref().unwrap_unchecked() };
